@@ -417,6 +417,9 @@ package bchutil
 
 //@ func bchutil.DecodeAddress
 //@   requires defaultNet != nil
+//@   ensures $calls_checkDecodeCashAddress <= 2 && $calls_CheckDecode <= 1 && $calls_DecodeString <= 1
+//@   ensures $calls_CheckDecode == 0 && $calls_DecodeString == 0 && $calls_checkDecodeCashAddress >= 1 ==> $ret3_checkDecodeCashAddress#1 == nil || ($calls_checkDecodeCashAddress == 2 && $ret3_checkDecodeCashAddress#2 == nil)
+//@   ensures $calls_DecodeString == 1 ==> len(addr) == 130 || len(addr) == 66
 //@   modifies nothing
 //@   assert after EqualFold#1: sameobj($arg0, addr) && $arg0.off == addr.off && len($arg0) == len(defaultNet.CashAddressPrefix) + 1 && len($arg1) == len(defaultNet.CashAddressPrefix) + 1 && $arg1[len($arg1) - 1] == ':' && forall k :: 0 <= k && k < len(defaultNet.CashAddressPrefix) ==> $arg1[k] == defaultNet.CashAddressPrefix[k]
 //@   assert after EqualFold#2: sameobj($arg0, addr) && $arg0.off == addr.off && len($arg0) == len(defaultNet.SlpAddressPrefix) + 1 && len($arg1) == len(defaultNet.SlpAddressPrefix) + 1 && $arg1[len($arg1) - 1] == ':' && forall k :: 0 <= k && k < len(defaultNet.SlpAddressPrefix) ==> $arg1[k] == defaultNet.SlpAddressPrefix[k]
